@@ -405,6 +405,9 @@ PAIRS = [
     ("naming a closed recursive sub-expression of a self-referential declaration",
      "let n = { 'kids (rec k [k]), 'up [n] };\nres /n on get -> <n>;\n",
      "let kids = rec k [k];\nlet n = { 'kids kids, 'up [n] };\nres /n on get -> <n>;\n"),
+    ("permuting declarations around a name used twice in positions that must agree",
+     "let b = num;\nlet a = b | b;\nlet pick x y = x | y;\nlet id = str;\nres /a on get -> <a> :: <status=404, (pick id id)>;\n",
+     "let a = b | b;\nlet pick x y = x | y;\nres /a on get -> <a> :: <status=404, (pick id id)>;\nlet id = str;\nlet b = num;\n"),
     ("permuting declarations",
      'let a = { \'x b };\nlet b = num;\nlet f y = [y];\nres /p on get -> <f a>;\n',
      'let f y = [y];\nlet b = num;\nlet a = { \'x b };\nres /p on get -> <f a>;\n'),
